@@ -565,6 +565,7 @@ func R15(p *core.Prog) *core.Result {
 			r.Ok(".REINIT", p.Pos(st.Pos()), "SetTarget(nil) re-initialises unfoldCtx."+f+" on every path")
 		}
 	}
+	tokenInit(p, r)
 	// json.(*Parser).Parse resets states, literalBuffer, currentState before feed
 	jp := p.LookupFunc("json", "(*Parser).Parse")
 	if jp == nil {
